@@ -28,11 +28,13 @@ Section Main.
     ~ (Endlist pl = true /\ pos = len (Segments pl) - 1) ->
     nth_error (fp :: rest) (S k) = Some pl' ->
     m + 1 < MediaSequence pl' \/ MediaSequence pl' + len (Segments pl') <= m + 1 ->
+    ~ ended_after m pl' ->
     l2 = [EvPlaylist (S k) false] /\ o = OErrNext.
   Proof.
-    intros Hreq Hnl Hk1 Hw. pose proof (requested_follows _ _ _ _ _ _ _ _ _ _ _ Hreq) as [pl0 [Hk0 Hc]].
+    intros Hreq Hnl Hk1 Hw Hne. pose proof (requested_follows _ _ _ _ _ _ _ _ _ _ _ Hreq) as [pl0 [Hk0 Hc]].
     destruct Hreq as [_ [_ Hk]]. assert (pl0 = pl) as -> by congruence.
     destruct Hc as [[He [Hp _]]|[_ Hc]]; [tauto|]. rewrite Hk1 in Hc.
+    rewrite (not_ended_after_b _ _ Hne) in Hc.
     assert ((m + 1 <? MediaSequence pl') || (MediaSequence pl' + len (Segments pl') <=? m + 1) = true) as E.
     { destruct (m + 1 <? MediaSequence pl') eqn:E1; [reflexivity|].
       destruct (MediaSequence pl' + len (Segments pl') <=? m + 1) eqn:E2; [reflexivity|lia]. }
@@ -51,6 +53,7 @@ Section Main.
     intros Hreq Hnl Hk1 Hw He Hd. pose proof (requested_follows _ _ _ _ _ _ _ _ _ _ _ Hreq) as [pl0 [Hk0 Hc]].
     destruct Hreq as [_ [_ Hk]]. assert (pl0 = pl) as -> by congruence.
     destruct Hc as [[He' [Hp _]]|[_ Hc]]; [tauto|]. rewrite Hk1 in Hc.
+    rewrite (in_window_not_ended _ _ Hw) in Hc.
     assert ((m + 1 <? MediaSequence pl') || (MediaSequence pl' + len (Segments pl') <=? m + 1) = false) as E.
     { destruct (m + 1 <? MediaSequence pl') eqn:E1; [lia|].
       destruct (MediaSequence pl' + len (Segments pl') <=? m + 1) eqn:E2; [lia|reflexivity]. }
@@ -72,6 +75,7 @@ Section Main.
     intros Hreq Hnl Hk1 Hw Hd. pose proof (requested_follows _ _ _ _ _ _ _ _ _ _ _ Hreq) as [pl0 [Hk0 Hc]].
     destruct Hreq as [_ [_ Hk]]. assert (pl0 = pl) as -> by congruence.
     destruct Hc as [[He' [Hp _]]|[_ Hc]]; [tauto|]. rewrite Hk1 in Hc.
+    rewrite (in_window_not_ended _ _ Hw) in Hc.
     assert ((m + 1 <? MediaSequence pl') || (MediaSequence pl' + len (Segments pl') <=? m + 1) = false) as E.
     { destruct (m + 1 <? MediaSequence pl') eqn:E1; [lia|].
       destruct (MediaSequence pl' + len (Segments pl') <=? m + 1) eqn:E2; [lia|reflexivity]. }
@@ -94,9 +98,9 @@ Section Main.
     destruct Hc as [[He' [Hp _]]|[_ Hc]]; [tauto|]. rewrite Hk1 in Hc. exact Hc.
   Qed.
 
-  (* the request for the last segment of an ENDLIST playlist, selected from that playlist, is the
-     final request and the stream ends *)
-  Theorem eos_partial fp rest log o l1 k pos m seg l2 pl :
+  (* EOS, first form: the request for the last segment of an ENDLIST playlist, selected from that
+     playlist, is the final request and the stream ends *)
+  Theorem eos_last_segment fp rest log o l1 k pos m seg l2 pl :
     requested (fp :: rest) log o l1 k pos m seg l2 pl ->
     Endlist pl = true -> pos = len (Segments pl) - 1 ->
     l2 = [] /\ o = OEOS.
@@ -104,6 +108,86 @@ Section Main.
     intros Hreq He Hp. pose proof (requested_follows _ _ _ _ _ _ _ _ _ _ _ Hreq) as [pl0 [Hk0 Hc]].
     destruct Hreq as [_ [_ Hk]]. assert (pl0 = pl) as -> by congruence.
     destruct Hc as [[_ [_ Hc]]|[Hn _]]; [exact Hc|tauto].
+  Qed.
+
+  (* EOS, second form: the next poll shows ENDLIST and segment m was that playlist's last one:
+     one playlist request, then the stream ends (no error, no further request) *)
+  Theorem eos_endlist_after_last fp rest log o l1 k pos m seg l2 pl pl' :
+    requested (fp :: rest) log o l1 k pos m seg l2 pl ->
+    ~ (Endlist pl = true /\ pos = len (Segments pl) - 1) ->
+    nth_error (fp :: rest) (S k) = Some pl' ->
+    Endlist pl' = true -> m = MediaSequence pl' + len (Segments pl') - 1 ->
+    l2 = [EvPlaylist (S k) false] /\ o = OEOS.
+  Proof.
+    intros Hreq Hnl Hk1 He Hm. pose proof (requested_follows _ _ _ _ _ _ _ _ _ _ _ Hreq) as [pl0 [Hk0 Hc]].
+    destruct Hreq as [_ [_ Hk]]. assert (pl0 = pl) as -> by congruence.
+    destruct Hc as [[He' [Hp _]]|[_ Hc]]; [tauto|]. rewrite Hk1 in Hc.
+    rewrite ended_after_b in Hc by (split; [exact He|lia]). exact Hc.
+  Qed.
+
+  (* EOS, history level. A server is consistent when a playlist that carries ENDLIST never changes
+     again (RFC 8216 6.2.1) and the last media sequence number never moves backwards. For every
+     history of a consistent server: once the client has polled a playlist carrying ENDLIST and has
+     requested that playlist's last media sequence number, the stream ends with EOS. *)
+  Definition last_msn (pl : playlist) : Z := MediaSequence pl + len (Segments pl) - 1.
+
+  Definition endlist_final (h : list playlist) : Prop :=
+    forall k pl j pl', nth_error h k = Some pl -> Endlist pl = true -> (k <= j)%nat ->
+                       nth_error h j = Some pl' -> pl' = pl.
+
+  Definition end_monotone (h : list playlist) : Prop :=
+    forall j pl k pl', (j <= k)%nat -> nth_error h j = Some pl -> nth_error h k = Some pl' ->
+                       last_msn pl <= last_msn pl'.
+
+  Definition eos_full (h : list playlist) : Prop :=
+    forall log o, run h = (log, o) ->
+    forall k pl s, nth_error h k = Some pl -> Endlist pl = true -> In (EvPlaylist k s) log ->
+      In (last_msn pl) (map ev_msn (seg_events log)) ->
+      o = OEOS.
+
+  Theorem eos_full_consistent h : endlist_final h -> end_monotone h -> eos_full h.
+  Proof.
+    intros Hfin Hmono log o Hrun k pl s Hk He Hpl HL.
+    destruct h as [|fp rest].
+    { cbn in Hrun. injection Hrun as <- _. cbn in HL. contradiction. }
+    (* the segment request carrying the last MSN *)
+    apply in_map_iff in HL. destruct HL as [e [Hmsn Hin]].
+    apply filter_In in Hin. destruct Hin as [Hin Hseg].
+    destruct e as [| |j p x sg|]; try discriminate. cbn in Hmsn. subst x.
+    destruct (isLowLatency fp) eqn:Hll.
+    { exfalso. exact (ll_no_segment_events _ _ _ _ _ _ _ _ _ _ Hll Hrun Hin). }
+    pose proof (segment_truthful _ _ _ _ _ _ _ _ _ _ Hrun Hin) as [plj [Hj [Hb [Hm Hs]]]].
+    destruct (in_split _ _ Hin) as [l1 [l2 Hlog]].
+    assert (requested (fp :: rest) log o l1 j p (last_msn pl) sg l2 plj) as Hreq by (repeat split; assumption).
+    destruct (le_lt_dec k j) as [Hkj|Hjk].
+    - (* requested from the ENDLIST playlist itself (which no longer changes) *)
+      assert (plj = pl) as -> by (eapply Hfin; eauto).
+      eapply eos_last_segment; [exact Hreq|exact He|]. unfold last_msn in Hm. lia.
+    - (* requested before poll k: it was the request just before that poll *)
+      destruct (consecutive _ _ _ _ _ _ Hll Hrun) as [l [m0 [Hlg Ht]]].
+      assert (In (EvSegment j p (last_msn pl) sg) l) as Hinl.
+      { rewrite Hlg in Hin. apply in_app_or in Hin. destruct Hin as [Hin|Hin]; [|exact Hin].
+        apply firstn_In in Hin. pose proof (prelude_no_segment fp) as Hp. rewrite Forall_forall in Hp.
+        apply Hp in Hin. discriminate. }
+      assert (In (EvPlaylist k s) l) as Hpll.
+      { rewrite Hlg in Hpl. apply in_app_or in Hpl. destruct Hpl as [Hpl|Hpl]; [|exact Hpl].
+        apply firstn_In in Hpl. unfold prelude in Hpl. destruct Hpl as [E|Hpl].
+        - injection E as <- _. lia.
+        - destruct (init_request fp); [destruct Hpl as [E|[]]; discriminate|contradiction]. }
+      destruct (tt_seg_at _ _ _ _ Ht _ _ _ _ Hinl) as [_ HLj].
+      destruct (tt_pl_prev _ _ _ _ Ht _ _ Hpll) as [Hk0 [p' [sg' Hin']]].
+      pose proof (trad_trace_truthful _ _ _ _ Ht _ _ _ _ Hin') as [plk [Hk1 [Hb' [Hm' _]]]].
+      assert (last_msn plk <= last_msn pl) as Hle by (eapply (Hmono (k - 1)%nat plk k pl); [lia|exact Hk1|exact Hk]).
+      assert (j = (k - 1)%nat) as Hjeq.
+      { unfold last_msn in *. rewrite !Nat.sub_0_r in *. lia. }
+      subst j.
+      destruct (Endlist plj) eqn:Hej.
+      + destruct (Z.eq_dec p (len (Segments plj) - 1)) as [Hp|Hp].
+        * eapply eos_last_segment; [exact Hreq|exact Hej|exact Hp].
+        * eapply (eos_endlist_after_last _ _ _ _ _ _ _ _ _ _ _ pl); [exact Hreq|tauto| |exact He|reflexivity].
+          replace (S (k - 1)) with k by lia. exact Hk.
+      + eapply (eos_endlist_after_last _ _ _ _ _ _ _ _ _ _ _ pl); [exact Hreq|intros [Hx _]; congruence| |exact He|reflexivity].
+        replace (S (k - 1)) with k by lia. exact Hk.
   Qed.
 
   Section Wire.
@@ -166,16 +250,7 @@ Proof.
   destruct r, x; try discriminate; exact Hin.
 Qed.
 
-(* ---------- the full end-of-stream reading of the property is REFUTED ---------- *)
-(* "after the last segment of an ENDLIST playlist has been delivered it ends with ErrClientEOS":
-   whenever the client has seen (polled) a playlist carrying ENDLIST and has requested that
-   playlist's last media sequence number, the stream ends with EOS. *)
-Definition eos_full (resolve : string -> string -> option string) (purl : string) (h : list playlist) : Prop :=
-  forall log o, run resolve purl h = (log, o) ->
-  forall k pl s, nth_error h k = Some pl -> Endlist pl = true -> In (EvPlaylist k s) log ->
-    In (MediaSequence pl + len (Segments pl) - 1) (map ev_msn (seg_events log)) ->
-    o = OEOS.
-
+(* ---------- concrete histories ---------- *)
 Definition xseg (n : Z) : segment :=
   {| sg_uri := ("seg" ++ dec n ++ ".ts")%string; sg_start := None; sg_length := None; sg_payload := n |}.
 Definition xpl (msn : Z) (ids : list Z) (e : bool) (t : pltype) : playlist :=
@@ -183,25 +258,40 @@ Definition xpl (msn : Z) (ids : list Z) (e : bool) (t : pltype) : playlist :=
      ServerControl := None; PreloadHint := None; Map := None |}.
 Definition xres : string -> string -> option string := fun _ r => Some r.
 
-(* the server keeps serving segments 0..2, the client (live start: third from last) fetches 0, 1, 2;
-   then the server appends ENDLIST without adding a segment: the client asks for MSN 3, does not
-   find it and fails with "next segment not found" although everything has been delivered *)
+(* the former finding C11-F11 (fixed in /repo by 3b9aa17): the server keeps serving segments 0..2,
+   the client (live start: third from last) fetches 0, 1, 2; then ENDLIST is added without a new
+   segment. The run now ends with EOS after that poll. *)
 Definition eos_witness : list playlist :=
   [xpl 0 [0; 1; 2] false PTNone; xpl 0 [0; 1; 2] false PTNone; xpl 0 [0; 1; 2] false PTNone;
    xpl 0 [0; 1; 2] true PTNone].
 
-Theorem eos_full_refuted : exists h, ~ eos_full xres "http://h/p.m3u8" h.
+Example ex_eos_endlist_after_last :
+  run xres "http://h/p.m3u8" eos_witness =
+  ([EvPlaylist 0 false; EvSegment 0 0 0 (xseg 0); EvPlaylist 1 false; EvSegment 1 1 1 (xseg 1);
+    EvPlaylist 2 false; EvSegment 2 2 2 (xseg 2); EvPlaylist 3 false], OEOS)
+  /\ requested xres "http://h/p.m3u8" eos_witness (fst (run xres "http://h/p.m3u8" eos_witness))
+               (snd (run xres "http://h/p.m3u8" eos_witness))
+               [EvPlaylist 0 false; EvSegment 0 0 0 (xseg 0); EvPlaylist 1 false; EvSegment 1 1 1 (xseg 1);
+                EvPlaylist 2 false] 2 2 2 (xseg 2) [EvPlaylist 3 false] (xpl 0 [0; 1; 2] false PTNone)
+  /\ nth_error eos_witness 3 = Some (xpl 0 [0; 1; 2] true PTNone)
+  /\ 2 = MediaSequence (xpl 0 [0; 1; 2] true PTNone) + len (Segments (xpl 0 [0; 1; 2] true PTNone)) - 1.
+Proof. repeat split; vm_compute; reflexivity. Qed.
+
+(* the witness is a history of a consistent server: the hypotheses of eos_full_consistent hold *)
+Example ex_consistent_server : endlist_final eos_witness /\ end_monotone eos_witness.
 Proof.
-  exists eos_witness. intros H.
-  assert (run xres "http://h/p.m3u8" eos_witness =
-          ([EvPlaylist 0 false; EvSegment 0 0 0 (xseg 0); EvPlaylist 1 false; EvSegment 1 1 1 (xseg 1);
-            EvPlaylist 2 false; EvSegment 2 2 2 (xseg 2); EvPlaylist 3 false], OErrNext)) as E
-    by (vm_compute; reflexivity).
-  specialize (H _ _ E 3%nat (xpl 0 [0; 1; 2] true PTNone) false eq_refl eq_refl).
-  assert (OErrNext = OEOS) as X; [|discriminate].
-  apply H.
-  - cbn. tauto.
-  - vm_compute. tauto.
+  split.
+  - intros k pl j pl' Hk He Hkj Hj.
+    destruct k as [|[|[|[|k]]]]; cbn in Hk; try (injection Hk as <-; discriminate).
+    + injection Hk as <-. destruct j as [|[|[|[|j]]]]; try lia; cbn in Hj.
+      * injection Hj as <-. reflexivity.
+      * destruct j; discriminate.
+    + destruct k; discriminate.
+  - intros j pl k pl' _ Hj Hk.
+    assert (forall i p, nth_error eos_witness i = Some p -> last_msn p = 2) as Hall.
+    { intros i p Hi. destruct i as [|[|[|[|i]]]]; cbn in Hi; try (injection Hi as <-; reflexivity).
+      destruct i; discriminate. }
+    rewrite (Hall _ _ Hj), (Hall _ _ Hk). lia.
 Qed.
 
 (* ---------- Examples: the hypotheses of the theorems are satisfiable ---------- *)
@@ -265,8 +355,12 @@ Example ex_stop_next :
   xrun ex_gap = ([EvPlaylist 0 false; EvSegment 0 0 0 (xseg 0); EvPlaylist 1 false], OErrNext)
   /\ requested xres "http://h/p.m3u8" ex_gap (fst (xrun ex_gap)) (snd (xrun ex_gap))
                [EvPlaylist 0 false] 0 0 0 (xseg 0) [EvPlaylist 1 false] (xpl 0 [0; 1; 2] false PTNone)
-  /\ 0 + 1 < MediaSequence (xpl 2 [2; 3; 4] false PTNone).
-Proof. repeat split; vm_compute; reflexivity. Qed.
+  /\ 0 + 1 < MediaSequence (xpl 2 [2; 3; 4] false PTNone)
+  /\ ~ ended_after 0 (xpl 2 [2; 3; 4] false PTNone).
+Proof.
+  split; [vm_compute; reflexivity|]. split; [repeat split; vm_compute; reflexivity|].
+  split; [vm_compute; reflexivity|]. intros [H _]. discriminate.
+Qed.
 
 Definition ex_late : list playlist :=
   [xpl 0 [0; 1; 2] false PTNone; xpl 0 [0; 1; 2; 3; 4; 5; 6] false PTNone].
